@@ -297,12 +297,44 @@ def r6_r7(tree, rep):
     rep.check("C10.R7", "process_inbound_queue hands every parked record to the manager", ok, site(pq, CON), key="C10.R7:process_inbound_queue")
 
 
+def r8(tree, rep):
+    """the replay needs connector_connection_made to reach Outbound.use_connection on EVERY new connection: what runs before it
+    must not raise.  The leader first feeds TrafficTimer.got_connection: that input has to be declared in every timer state a lost
+    connection can leave behind."""
+    from ..automat_x import Program
+    from ..tablerules import row_calls
+    prog = Program(tree)
+    T = prog.machine("TrafficTimer")
+    M = prog.machine("Manager")
+    after_loss = {r.enter for r in T.rows_on("lost_connection")} | {T.initial}
+    for st in sorted(after_loss):
+        r = T.row(st, "got_connection")
+        rep.check("C10.R8", "TrafficTimer[%s] (left behind by a lost connection) accepts got_connection" % st, r is not None,
+                  r.site if r is not None else T.file, key="C10.R8:TrafficTimer[%s].got_connection" % st,
+                  what="after a connection was lost in some timer state the timer is in %s, where got_connection is not declared: the next "
+                       "connector_connection_made raises NoTransition before Outbound.use_connection, nothing is replayed" % st)
+    for st in T.states:
+        r = T.row(st, "lost_connection")
+        if r is not None:
+            idle = [x.src for x in T.rows_on("got_connection")]
+            rep.check("C10.R8", "TrafficTimer[%s].lost_connection enters a state that accepts the next connection" % st, r.enter in idle, r.site,
+                      key="C10.R8:TrafficTimer[%s].lost_connection" % st)
+    cm = tree.func(MGR, "Manager", "connector_connection_made")
+    g = build(cm)
+    use = g.call_nodes(lambda c: dotted(c.func) == "self._outbound.use_connection" and len(c.args) == 1 and isinstance(c.args[0], ast.Name)
+                       and c.args[0].id in params(cm))
+    gc = g.call_nodes(lambda c: dotted(c.func) == "self._traffic.got_connection")
+    rep.check("C10.R8", "connector_connection_made hands the new connection to Outbound.use_connection on every path, after the timer was told",
+              len(use) == 1 and g.must_pass(use, explicit_only=True) and len(gc) == 1, site(cm, MGR), key="C10.R8:use_connection")
+
+
 def run(tree, rep, tier):
     r1(tree, rep)
     r2(tree, rep)
     r3(tree, rep)
     r4_r5(tree, rep)
     r6_r7(tree, rep)
+    r8(tree, rep)
 
 
 MUTANTS = [
